@@ -317,14 +317,18 @@ def rule_keep_alive(ctx):
             t = dn.blocks[bi]["term"]
             if t["k"] == "switch":
                 e = dn.expr_of_operand(t["discr"])
+                none_targets = []
                 if e[0] == "call" and str(e[1]).endswith("::is_none"):
-                    tt = t["otherwise"]
-                    if is_diverging(dn, tt):
-                        found = True
-                if e[0] == "discr":
-                    for v, bb in t["arms"]:
-                        if v == 0 and is_diverging(dn, bb):
-                            found = True
+                    none_targets = [t["otherwise"]]
+                elif e[0] == "call" and str(e[1]).endswith("::is_some"):
+                    none_targets = [bb for v, bb in t["arms"] if v == 0]
+                elif e[0] == "discr":
+                    vals = [v for v, bb in t["arms"]]
+                    none_targets = [bb for v, bb in t["arms"] if v == 0]
+                    if 0 not in vals and 1 in vals:
+                        none_targets = [t["otherwise"]]
+                if none_targets and all(is_diverging(dn, bb) for bb in none_targets):
+                    found = True
         if found:
             ctx.ok(site(dn, lb), "a failed lock attempt does not fall through to dropping the fields")
         else:
